@@ -110,9 +110,9 @@ func hasStd(d *dialect.Dialect, id uint32, std message.Message) bool {
 func TestC16Automatic(t *testing.T) {
 	rec := evid.New(t, "C16", "generated node configurations (heartbeat on/off, period 20-80ms, system/autopilot type, dialect in {common, ardupilotmega, minimal, user dialects with version 0..255 with / without / with a fake HEARTBEAT or REQUEST_DATA_STREAM, none}, stream requests on/off, frequency 1..50, 1..3 channels, v1/v2 output) and histories of incoming heartbeats from generated (channel, system, component, autopilot) sources repeated several times and interleaved with other messages; oracles: heartbeats on every channel with the configured fields, status 4, dialect version, at most elapsed/period+1 of them and at least 2, none when disabled or the dialect lacks the standard message; for each distinct ArduPilot sender exactly the seven data-stream requests (1,2,3,6,10,11,12) at the configured rate addressed to it on its channel only plus one stream-requested event, nothing for other autopilots, other messages or when disabled; non-trivial = >=2 ArduPilot senders on >=2 channels plus a non-ArduPilot sender; distinct by hash of the scenario")
 	rec.Require("hb-enabled", "hb-disabled-or-missing", "sr-enabled-with-ardupilot", "sr-not-applicable", "multi-sender-multi-channel", "user-dialect", "v1-output")
-	evid.Check(t, rec, evid.N(60, 300), func(t *rapid.T) {
+	evid.Check(t, rec, evid.N(200, 600), func(t *rapid.T) {
 		w := &c16World{}
-		w.dialectKind = rapid.SampledFrom([]string{"common", "ardupilotmega", "ardupilotmega", "minimal", "user", "user", "user-no-hb", "user-fake-hb", "user-no-rds", "user-fake-rds", "nil"}).Draw(t, "dialect")
+		w.dialectKind = rapid.SampledFrom([]string{"common", "common", "ardupilotmega", "ardupilotmega", "ardupilotmega", "minimal", "user", "user", "user", "user-no-hb", "user-fake-hb", "user-no-rds", "user-fake-rds", "nil"}).Draw(t, "dialect")
 		w.version = rapid.IntRange(0, 255).Draw(t, "version")
 		w.hbEnabled = rapid.IntRange(0, 3).Draw(t, "hb") > 0
 		w.period = time.Duration(rapid.IntRange(20, 80).Draw(t, "period_ms")) * time.Millisecond
@@ -120,9 +120,9 @@ func TestC16Automatic(t *testing.T) {
 		w.apType = rapid.IntRange(0, 255).Draw(t, "aptype")
 		w.srEnabled = rapid.IntRange(0, 3).Draw(t, "sr") > 0
 		w.freq = rapid.IntRange(1, 50).Draw(t, "freq")
-		w.nch = rapid.IntRange(1, 3).Draw(t, "nch")
+		w.nch = rapid.SampledFrom([]int{1, 2, 2, 3, 3}).Draw(t, "nch")
 		w.outV2 = rapid.Bool().Draw(t, "outv2")
-		ns := rapid.IntRange(0, 7).Draw(t, "nsources")
+		ns := rapid.OneOf(rapid.IntRange(0, 7), rapid.IntRange(4, 9)).Draw(t, "nsources")
 		for i := 0; i < ns; i++ {
 			h := hbSource{ch: rapid.IntRange(0, w.nch-1).Draw(t, "src_ch"),
 				sys:       byte(rapid.IntRange(1, 6).Draw(t, "src_sys")),
